@@ -91,3 +91,81 @@ theorem syntax_error_has_name (src : Str) (opts : TemplateOptions)
   rfl
 
 end Hbs.C18
+
+/-! ### every error that leaves a template carries a position and – for a named template – a name -/
+namespace Hbs.C18
+open Hbs RM
+
+theorem decorateRender_line (tn : Option Str) (l c : Nat) (rest : List (Nat × Nat)) (er : RenderError) :
+    (decorateRender tn ((l, c) :: rest) er).line.isSome := by
+  unfold decorateRender
+  cases hl : er.line <;> cases hn : er.name <;> simp [hl, hn]
+
+theorem decorateRender_name (tn : Option Str) (m : List (Nat × Nat)) (er : RenderError) (h : tn.isSome) :
+    (decorateRender tn m er).name.isSome := by
+  unfold decorateRender
+  cases tn with
+  | none => simp at h
+  | some t =>
+    simp only []
+    repeat' split
+    all_goals first
+      | (simp_all; done)
+      | (rename_i hne; cases hname : er.name <;> simp_all)
+
+/-- the element loop of a template whose mapping covers its elements (what `compile2` builds: one
+    entry per element): ANY error it returns – whichever element failed, at whatever depth the failure
+    arose – has a line, and the template's name if it has one (inner templates may already have set
+    theirs: `decorate_keeps_inner`). -/
+theorem elems_error_positioned (reg : Registry) (root : Json) (tn : Option Str) :
+    ∀ (fuel : Nat) (es : List Elem) (m : List (Nat × Nat)) (rc : RC) (out o : Out) (er : RenderError),
+      es.length ≤ m.length → renderElems reg root fuel tn es m rc out = .err er o →
+      er.line.isSome ∧ (tn.isSome → er.name.isSome) := by
+  intro fuel
+  induction fuel with
+  | zero => intro es m rc out o er _ h; simp [renderElems] at h
+  | succ fuel ih =>
+    intro es m rc out o er hlen h
+    cases es with
+    | nil => simp [renderElems] at h
+    | cons e es =>
+      cases m with
+      | nil => simp at hlen
+      | cons p rest =>
+        obtain ⟨l, c⟩ := p
+        simp only [renderElems, RM.bind_def, RM.bnd_apply, RM.mapErr] at h
+        cases hr : renderElem reg root fuel e rc out with
+        | ok a rc1 o1 =>
+          simp only [hr] at h
+          exact ih es rest rc1 o1 o er (by simpa using hlen) (by simpa using h)
+        | err e1 o1 =>
+          simp only [hr] at h
+          simp only [RRes.err.injEq] at h
+          obtain ⟨rfl, _⟩ := h
+          exact ⟨decorateRender_line tn l c rest e1, decorateRender_name tn _ e1⟩
+        | panic s => simp [hr] at h
+        | fuel => simp [hr] at h
+
+/-- … hence every error of `Template::render` on a template with an aligned mapping is positioned -/
+theorem template_error_positioned (reg : Registry) (root : Json) (fuel : Nat) (name : Option Str)
+    (es : List Elem) (m : List (Nat × Nat)) (rc : RC) (out o : Out) (er : RenderError)
+    (hlen : es.length ≤ m.length)
+    (h : renderTemplate reg root fuel (.mk name es m) rc out = .err er o) :
+    er.line.isSome ∧ (name.isSome → er.name.isSome) := by
+  cases fuel with
+  | zero => simp [renderTemplate] at h
+  | succ fuel =>
+    simp only [renderTemplate, RM.bind_def, RM.bnd_apply, RM.get_apply, RM.modify_apply, Tmpl.name, Tmpl.elements, Tmpl.mapping] at h
+    cases hr : renderElems reg root fuel name es m { rc with currentTemplate := name } out with
+    | ok a rc1 o1 =>
+      rw [hr] at h
+      cases hn : name.isNone <;> simp [hn] at h
+    | err e1 o1 =>
+      rw [hr] at h
+      simp only [RRes.err.injEq] at h
+      obtain ⟨rfl, _⟩ := h
+      exact elems_error_positioned reg root name fuel es m _ out o1 e1 hlen hr
+    | panic s => rw [hr] at h; simp at h
+    | fuel => rw [hr] at h; simp at h
+
+end Hbs.C18
